@@ -433,6 +433,25 @@ func TestVerifC12Suppress(t *testing.T) {
 		}
 	}
 	const ncpu = 4
+	var rc c12sCase
+	if part, ok := env.ReplayData(&rc); ok {
+		res := mc.NewResult("C12", "replay-suppress", "faults")
+		if strings.HasPrefix(part, "be-suppress-") {
+			helper.SetCgroupsV2(rc.V2)
+			for ti := range c12sTrees {
+				if c12sTrees[ti].Name == rc.Tree {
+					r := c12sExec(c12sSetup(rc.V2, &c12sTrees[ti]), &rc)
+					res.Evaluations++
+					for _, v := range r.viols {
+						res.Violate(mc.Violation{Key: v[0], What: v[1] + " | writes: " + strings.Join(r.trace, " ; "), Replay: rc})
+					}
+					fmt.Printf("REPLAY %v writes: %v\n", r.viols, r.trace)
+				}
+			}
+		}
+		env.Emit(res)
+		return
+	}
 	for _, v2 := range []bool{false, true} {
 		helper.SetCgroupsV2(v2)
 		ver := "v1"
